@@ -6,11 +6,12 @@ function samlangGeneratedWebAssemblyLoader(bytes, builtinsPatch = () => ({})) {
   function gcArrayToString(arr) {
     if (!instance) throw new Error('Instance not initialized');
     const len = instance.exports.__strLen(arr);
-    const codes = [];
+    // Strings are stored as UTF-8 bytes (__strGet sign-extends; Uint8Array keeps the low 8 bits)
+    const bytes = new Uint8Array(len);
     for (let i = 0; i < len; i++) {
-      codes.push(instance.exports.__strGet(arr, i));
+      bytes[i] = instance.exports.__strGet(arr, i);
     }
-    return String.fromCharCode(...codes);
+    return new TextDecoder('utf-8', { ignoreBOM: true }).decode(bytes);
   }
 
   const builtins = {
